@@ -7,7 +7,8 @@ package balance
 //@ pure charge(b *payPerInterval, lastSeen time.Time, now int) int = div((now - lastSeen) * bigval(b.CreditPerInterval), b.Interval)
 
 //@ func (*payPerInterval).OnClient
-//@ property C03
+//@ property C03 C15
+//@ safety on
 //@ let tot = store.spendable(b.Store, node.ID)
 //@ ensures [unset-min-never-refuses]  b.MinBalance == nil ==> err == nil
 //@ ensures [host-never-refused]       node.IsHost ==> !typeis(err, LowBalanceError)
@@ -30,7 +31,8 @@ package balance
 //@ ensures [non-nil] {C02} result != nil
 
 //@ func (*payPerInterval).OnUpdate
-//@ property C01 C02 C03
+//@ property C01 C02 C03 C15
+//@ safety on
 //@ ensures [zero-sum] {C01}        (err == nil || typeis(err, LowBalanceError) || b.Store.loglen == old(b.Store.loglen)) ==> b.Store.total == old(b.Store.total)
 //@ ensures [all-or-nothing] {C01 C02} err != nil && !typeis(err, LowBalanceError) ==> b.Store.loglen == old(b.Store.loglen) && store.sameCredit(b.Store)
 //@ ensures [host-free] {C02 C03}   node.IsHost ==> store.sameCredit(b.Store) && b.Store.loglen == old(b.Store.loglen) && !typeis(err, LowBalanceError)
